@@ -404,6 +404,12 @@ func (s *Snapshotter) tryAppend(l string) {
 func (s *Snapshotter) appendLine(l string) error {
 	defer metrics.MeasureSinceWithLabels([]string{"serf", "snapshot", "appendLine"}, time.Now(), s.metricLabels)
 
+	// A failed compaction can leave us without an open snapshot file. Report
+	// it, so that tryAppend retries the compaction, instead of dereferencing nil.
+	if s.buffered == nil {
+		return fmt.Errorf("snapshot file is not open")
+	}
+
 	n, err := s.buffered.WriteString(l)
 	if err != nil {
 		return err
@@ -511,16 +517,22 @@ func (s *Snapshotter) compact() error {
 	// handles.
 
 	// Flush the existing snapshot, ignoring errors since we will
-	// delete it momentarily.
-	_ = s.buffered.Flush()
-	s.buffered = nil
+	// delete it momentarily. The handles are nil if an earlier compaction
+	// failed after closing them.
+	if s.buffered != nil {
+		_ = s.buffered.Flush()
+		s.buffered = nil
+	}
 
 	// Close the file handle to the old snapshot
-	s.fh.Close()
-	s.fh = nil
+	if s.fh != nil {
+		s.fh.Close()
+		s.fh = nil
+	}
 
-	// Delete the old file
-	if err := os.Remove(s.path); err != nil {
+	// Delete the old file. It is already gone if an earlier compaction failed
+	// between removing it and installing the new one.
+	if err := os.Remove(s.path); err != nil && !os.IsNotExist(err) {
 		return fmt.Errorf("failed to remove old snapshot: %v", err)
 	}
 
